@@ -80,9 +80,14 @@ class Server:
             if child == 0:
                 os.close(r)
                 try:
-                    base_env, descs = job
                     try:
-                        res = ("ok", evaluate_slice(base_env, descs))
+                        if isinstance(job, tuple) and len(job) == 4 and job[0] == "call":
+                            import importlib
+                            mod = importlib.import_module(job[1])
+                            res = ("ok", getattr(mod, job[2])(*job[3]))
+                        else:
+                            base_env, descs = job
+                            res = ("ok", evaluate_slice(base_env, descs))
                     except BaseException:
                         res = ("error", traceback.format_exc())
                     _send(w, res)
@@ -105,6 +110,17 @@ class Server:
         self.calls += 1
         if res[0] != "ok":
             raise RuntimeError("fresh evaluation failed:\n" + res[1])
+        return res[1]
+
+    def call(self, module, func, args):
+        """Run module.func(*args) in a fresh fork of the pristine server."""
+        if os.getpid() != self.owner:
+            raise RuntimeError("fresh server used from a process that does not own it")
+        _send(self.req, ("call", module, func, tuple(args)))
+        res = _recv(self.rsp)
+        self.calls += 1
+        if res[0] != "ok":
+            raise RuntimeError("fresh call failed:\n" + res[1])
         return res[1]
 
     def close(self):
